@@ -1078,9 +1078,13 @@ func (r *Reader) DocumentWithOptions(opts ExtractOptions) (*model.Document, erro
 		case ElementTable:
 			if elem.Table != nil && len(elem.Table.Rows) > 0 {
 				numRows := len(elem.Table.Rows)
+				// Rows differ in length when cells span columns or rows;
+				// size the model table for the longest one
 				numCols := 0
-				if numRows > 0 {
-					numCols = len(elem.Table.Rows[0])
+				for _, row := range elem.Table.Rows {
+					if len(row) > numCols {
+						numCols = len(row)
+					}
 				}
 
 				modelTable := model.NewTable(numRows, numCols)
